@@ -198,7 +198,7 @@ def validate_traces(traces, module, enforce, cfg_tmpl, workdir, keep_events=None
                     starts.append(ln + 1)
                     for e in t:
                         f.write(json.dumps(e) + '\n'); ln += 1
-            rc, out = run_tlc(w, module, cfgtext, workers=1, timeout=timeout, env={'TRACE': tp})
+            rc, out = run_tlc(w, module, cfgtext, workers=1, timeout=int(os.environ.get('VERIF_VAL_TIMEOUT', timeout)), env={'TRACE': tp})
             if 'REJECTED_AT' not in out:
                 if 'Model checking completed' in out and rc == 0:
                     acc += len(shard); shutil.rmtree(w, ignore_errors=True); break
